@@ -58,6 +58,14 @@ CHECKS = {
    "exhaustive enumeration of bounded token sequences through the real annotation readers against a hand-written recogniser; exhaustive attachment matrix",
    "All comment strings made of <=4 (quick) / <=5 (thorough) tokens over a 41-token alphabet (blanks, keywords, near-keywords, arguments, punctuation), several comment openers and an argument-focused extension are attached to type/field/func/method/body sites and read by the real ReadAllAnnotations / ReadIgnoreAnnotations; every field of the result is compared with a regexp-free reference recogniser; 21 attachment sites x 7 keywords decide where annotations take effect.",
    "blank = space, tab, form feed, carriage return; shapes the documented grammar does not determine are listed under not_judged", "2/C15"),
+ "C11": ("model_checking", "E3 schedmc (+E4, race complement)",
+   "controlled scheduler over the analyzer x package action DAG, depth-first enumeration of all schedules within a deviation bound, real Analyzer.Run in every schedule",
+   "Every schedule of the action DAG with at most 1 (quick) / 2 (thorough) deviations from the default choice is executed with the real analyzers under a cooperative scheduler that owns all cross-action operations; diagnostics (full text) and gob bytes of every fact must equal the default schedule's, which is itself validated against checker.Analyze (sequential and parallel). Run sets, root permutations and the real drivers (json, -debug=p, vet; permuted and reduced package lists; repeated) are compared exhaustively over the listed grid. Data races between scheduling points are outside a cooperative scheduler's reach and are delegated to a free-running -race build of the real binary (sampling, reported separately).",
+   "scheduling points = analysis.Pass callbacks; map iteration order and memory-model races not owned by the scheduler", "2/C11"),
+ "C14": ("exploration", "E4 drvmc",
+   "exhaustive configuration grid on the real drivers with exact want-marker oracle, positional oracle and inert-twin differential",
+   "Every cell of scan-tests x exclude-paths x {flag, env} x {standalone, vet} is run on a module mixing regular, in-package and external test files, generated files, a legacy sub-package and a testdata package; the diagnostics must equal the want-markers whose own file and annotation-holding files survive the reference filter, none may lie in an excluded file, and replacing excluded files by inert twins must change nothing.",
+   "go list / go vet package selection trusted; scratch path free of exclude entries", "2/C14"),
 }
 
 NA_REASON = "check not built yet in this round (planned, see DESIGN.md section 2)"
@@ -94,8 +102,10 @@ def main():
              "kind_free_text": "explicit-state search over declaration/statement histories; successor = history + one declaration, re-rendered and re-analysed by the real analyzers (checker.Analyze)"},
             {"name": "E2 seqmc", "path": "/verif/mc/internal/checks", "serves_properties": ["C15", "C16", "C19", "C06"],
              "kind_free_text": "exhaustive enumeration of inputs / operation sequences through the public API against a boring reference model"},
-            {"name": "E4 drvmc", "path": "/verif/mc/internal/drv", "serves_properties": ["C06", "C17"],
+            {"name": "E4 drvmc", "path": "/verif/mc/internal/drv", "serves_properties": ["C06", "C11", "C14", "C17"],
              "kind_free_text": "grid runner over the real executables (gogreement, go vet -vettool) on programs materialised in a tmpfs scratch directory; rebuilt from the working tree on every run"},
+            {"name": "E3 schedmc", "path": "/verif/mc/internal/e3", "serves_properties": ["C11"],
+             "kind_free_text": "hand-written controlled scheduler + DFS explorer over the go/analysis action DAG; deviation-bounded; replay of recorded choice sequences with hard error on divergence"},
         ],
         "checks": checks,
         "notes": "All checks run the real code of /repo (rebuilt from the working tree on every invocation). known_findings.json lists recorded and fixed defects.",
